@@ -323,6 +323,8 @@ class TokenStream(Harness):
         for prefix in (["cds", "("], ["not", "cds", "("], ["minscore", "("], ["minimum", "(", "2", ","], ["a", "and", "cds", "("],
                        ["(", "a", "or"], ["not", "("]):
             out.append({"len": tail, "prefix": prefix})
+        if tier == "quick":
+            out.append({"len": 5, "prefix": ["not", "("]})      # the shortest accepted text with a negated group around a negation
         return out
 
     def vars(self, var):
@@ -397,6 +399,8 @@ class TokenStream(Harness):
 
     def expected_classes(self, var):
         if var["prefix"]:
+            if var["prefix"] == ["not", "cds", "("]:
+                return {"reject"}       # no continuation of exactly five tokens adds a positive requirement after closing the group
             return {"reject"} if var["prefix"][0] == "not" and var["len"] < 5 else {"accept", "reject"}
         return {"reject"} if var["len"] == 2 else {"accept", "reject"}
 
